@@ -490,7 +490,25 @@ def gen_generic(rng) -> dict[str, Any]:
     return c
 
 
+def twice_in_block_cases():
+    """The same partial reached twice, identically, from inside a block that binds a name; afterwards the name is read where only the
+    globals can answer (enumerated: binder x tag x name x what follows)."""
+    datas = [V.enc({"a": "GA", "b": "GB", "k": "GK", "p": "GP", "q": "GQ", "xs": [1, 2], "g1": "G1"})]
+    for name in ("a", "k", "q"):
+        for tag in ("include", "render"):
+            call = "{% " + tag + " 'p' %}"
+            for binder in ("{% with N: 1 %}@{% endwith %}", "{% for N in xs %}@{% endfor %}", "{% tablerow N in xs %}@{% endtablerow %}", "{% macro m N %}@{% endmacro %}{% call m 1 %}",
+                           "{% for N in xs %}{% if true %}@{% endif %}{% endfor %}", "{% with N: g1 %}{% with z: 1 %}@{% endwith %}{% endwith %}"):
+                for body in (call + call, call + "x" + call + call, "{% if true %}" + call + "{% endif %}" + call):
+                    for after in ("{{ N }}", "{{ N.x }}{% if N %}y{% endif %}", "{% " + tag + " 'p' %}{{ N | upcase }}"):
+                        main = binder.replace("@", body).replace("N", name) + after.replace("N", name)
+                        yield {"kind": "matrix", "main": main, "partials": {"p": "[{{ b }}{{ " + name + " }}]"}, "datas": datas, "async": False, "async_analysis": len(main) % 2 == 0}
+
+
 def cases(ctx: core.Ctx):
     rng = ctx.rng("cases")
+    for i, c in enumerate(twice_in_block_cases()):
+        if i % ctx.nshards == ctx.shard:
+            yield c
     for i in range(ctx.budget(3000, 400_000)):
         yield gen_matrix(rng) if i % 3 else gen_generic(rng)
